@@ -94,9 +94,12 @@ package topologyaware
 //@   ensures[C01] forall id string :: id in p.allocations.grants && !early && opt.PinCPU && !skipShared(gr(p.allocations.grants[id]), grant) ==>
 //@        rtCpusW[gr(p.allocations.grants[id]).container] == old(rtCpusW[gr(p.allocations.grants[id]).container]) + 1 && rtCpus[gr(p.allocations.grants[id]).container].IsSubsetOf(repinSet(gr(p.allocations.grants[id]))) &&
 //@        (!hidesHT(gr(p.allocations.grants[id]).container) ==> rtCpus[gr(p.allocations.grants[id]).container].Equals(repinSet(gr(p.allocations.grants[id]))))
+//@   # containers that have no grant in the table are not told anything
+//@   ensures[C09,C01] forall c cache.Container :: (forall id string :: id in p.allocations.grants ==> gr(p.allocations.grants[id]).container != c) ==> rtCpusW[c] == old(rtCpusW[c]) && rtCpus[c] == old(rtCpus[c])
 //@ loop 0 in (*policy).updateSharedAllocations at "range p.allocations.grants"
 //@   modifies rtCpus[*], rtCpusW[*]
 //@   invariant !early
+//@   invariant forall c cache.Container :: (forall id string :: id in p.allocations.grants ==> gr(p.allocations.grants[id]).container != c) ==> rtCpusW[c] == old(rtCpusW[c]) && rtCpus[c] == old(rtCpus[c])
 //@   invariant forall id string :: id in p.allocations.grants && (!seen(id) || !opt.PinCPU || skipShared(gr(p.allocations.grants[id]), grant)) ==>
 //@        rtCpusW[gr(p.allocations.grants[id]).container] == old(rtCpusW[gr(p.allocations.grants[id]).container]) && rtCpus[gr(p.allocations.grants[id]).container] == old(rtCpus[gr(p.allocations.grants[id]).container])
 //@   invariant forall id string :: id in p.allocations.grants && seen(id) && opt.PinCPU && !skipShared(gr(p.allocations.grants[id]), grant) ==>
@@ -114,7 +117,7 @@ package topologyaware
 //@   requires ctrID(container) in p.allocations.grants ==> releasable(gr(p.allocations.grants[ctrID(container)])) && libmem.idle(nPolicy(gr(p.allocations.grants[ctrID(container)]).node).memAllocator)
 //@   let G = gr(p.allocations.grants[ctrID(container)])
 //@   let had = ctrID(container) in p.allocations.grants
-//@   ensures[C09] !had ==> result0 == nil && !result1 && p.allocations.grants == old(p.allocations.grants) && dom(p.allocations.grants) == old(dom(p.allocations.grants))
+//@   ensures[C09] !had ==> result0 == nil && !result1 && p.allocations.grants == old(p.allocations.grants) && dom(p.allocations.grants) == old(dom(p.allocations.grants)) && vals(p.allocations.grants) == old(vals(p.allocations.grants))
 //@   ensures[C09] had ==> result1 && gr(result0) == G && !(ctrID(container) in p.allocations.grants) && p.allocations.grants == old(p.allocations.grants)
 //@   ensures[C09] had ==> forall id string :: id != ctrID(container) ==> (id in p.allocations.grants) == old(id in p.allocations.grants) && p.allocations.grants[id] == old(p.allocations.grants[id])
 //@   # the pool gets back the grant's exclusive CPUs and its promised capacity
